@@ -15,7 +15,7 @@ from constantly import NamedConstant
 
 from twisted.python._tzhelper import FixedOffsetTimeZone
 from twisted.python.failure import Failure
-from twisted.python.reflect import safe_repr
+from twisted.python.reflect import safe_repr, safe_str
 from ._flatten import aFormatter, flatFormat
 from ._interfaces import LogEvent
 
@@ -324,7 +324,7 @@ def _formatTraceback(failure: Failure) -> str:
     try:
         traceback = failure.getTraceback()
     except BaseException as e:
-        traceback = "(UNABLE TO OBTAIN TRACEBACK FROM EVENT):" + str(e)
+        traceback = "(UNABLE TO OBTAIN TRACEBACK FROM EVENT):" + safe_str(e)
     return traceback
 
 
